@@ -27,5 +27,29 @@ flock build/san.lock ninja -C build/san -k 0 $TARGETS > build/build-san.log 2>&1
 rc=$?
 [ $rc -eq 0 ] || { grep -E "FAILED|error:" build/build-san.log | head -40; echo "setup: some harness binaries failed to build (their checks will report BUILD-FAILED)"; }
 ls build/san/lib/libbitcoin_node.a > /dev/null 2>&1 || { echo "setup: repository libraries did not build"; tail -40 build/build-san.log; exit 1; }
-echo "setup ok: $(ls build/san/vh 2>/dev/null | wc -l) harness binaries"
+# tsan tree: only if a claimed stage that runs in the quick tier needs it
+TSAN_TARGETS=$(python3 - <<'P'
+import sys
+sys.path.insert(0, "bin")
+import props
+t = set()
+for pid, sp in props.PROPS.items():
+    for st in sp["stages"]:
+        if "quick" not in st.get("tiers", ("quick", "thorough")):
+            continue
+        if st["kind"] in ("gen", "enum") and st.get("cfg", "san") == "tsan":
+            t.add(st["binary"])
+        for cfg, tg in st.get("needs", []):
+            if cfg == "tsan":
+                t.add(tg)
+print(" ".join(sorted(t)))
+P
+)
+if [ -n "$TSAN_TARGETS" ]; then
+  if [ ! -f build/tsan/build.ninja ]; then
+    bin/configure.sh tsan > build/configure-tsan.log 2>&1 || { tail -30 build/configure-tsan.log; echo "setup: tsan configure failed (tsan stages will report BUILD-FAILED)"; }
+  fi
+  [ -f build/tsan/build.ninja ] && { flock build/tsan.lock ninja -C build/tsan -k 0 $TSAN_TARGETS > build/build-tsan.log 2>&1 || { grep -E "FAILED|error:" build/build-tsan.log | head -20; echo "setup: some tsan binaries failed to build"; }; }
+fi
+echo "setup ok: $(ls build/san/vh 2>/dev/null | wc -l) san harness binaries, $(ls build/tsan/vh 2>/dev/null | wc -l) tsan"
 exit 0
